@@ -61,6 +61,11 @@ func (e *Enc) instr(fr *Frame, b *ssa.BasicBlock, ins ssa.Instruction, st *State
 		}
 		ref := e.val(fr, base)
 		e.safe(fr, "nil", reach, T(SBool, "(not (= %s 0))", ref.S), pos)
+		if e.isElemPtrType(pt) {
+			u := pt.Underlying().(*types.Struct)
+			fr.addrs[x] = &Addr{kind: ASub, parent: e.elemAddr(ref, pt), field: x.Field, sort: e.sortOf(u.Field(x.Field).Type()), typ: u.Field(x.Field).Type()}
+			return
+		}
 		key, fs, ft := e.fieldKey(pt, x.Field)
 		fr.addrs[x] = &Addr{kind: AField, key: key, ref: ref, sort: fs, typ: ft}
 	case *ssa.Field:
@@ -495,6 +500,16 @@ func (e *Enc) alloc(fr *Frame, x *ssa.Alloc, st *State, reach Term) {
 	el := x.Type().Underlying().(*types.Pointer).Elem()
 	ref := e.allocRef(st, reach)
 	fr.vals[x] = ref
+	if e.isElemPtrType(el) {
+		// a lone value of a type whose pointers are element pointers: a one-element array
+		s := e.sortOf(el)
+		mk := e.memKey(s)
+		zeroArr := Term{fmt.Sprintf("((as const %s) %s)", arraySort(SInt, s), e.zero(el).S), arraySort(SInt, s)}
+		e.heapSet(st, mk, store(e.heapGet(st, mk), ref, zeroArr))
+		fr.addrs[x] = &Addr{kind: AElem, key: mk, ref: ref, idx: Term{"0", SInt}, sort: s, typ: el}
+		fr.vals[x] = e.elemPtr(ref, Term{"0", SInt})
+		return
+	}
 	switch u := el.Underlying().(type) {
 	case *types.Array:
 		es := e.sortOf(u.Elem())
